@@ -236,6 +236,12 @@ class Kernel:
         s, w = TYPES[t]
         a, at = e
         if at is None: return (a, t)
+        if at in TYPES and at != '?into':
+            ss, sw = TYPES[at]
+            # a value of a machine type is always within that type's range: keep that fact local by
+            # normalising the operand to its own width first (identity on in-range values)
+            if sw < w and not a.startswith('(cast') and not a.startswith('(wrap'):
+                a = f'({"castS" if ss else "castU"} {sw} {a})'
         return (f'({"castS" if s else "castU"} {w} {a})', t)
     def p_unary(self):
         k, v = self.peek()
@@ -251,8 +257,28 @@ class Kernel:
     def p_postfix(self):
         e = self.p_atom()
         while self.peek() == ('op', '.'):
-            self.eat(); m = self.eat('id'); self.eat('op', '('); self.eat('op', ')')
+            self.eat(); m = self.eat('id'); self.eat('op', '(')
+            arg = None
+            if self.peek() != ('op', ')'):
+                arg = self.p_or()
+            self.eat('op', ')')
             a, at = e
+            if m in ('wrapping_add', 'wrapping_sub', 'wrapping_mul'):
+                if arg is None: raise ExtractError(f'kernel {self.name}: .{m}() needs an argument')
+                b, bt = arg
+                if bt is not None and at is not None and bt != at:
+                    raise ExtractError(f'kernel {self.name}: type mismatch in .{m}()')
+                t = at if at is not None else bt
+                sg, w = TYPES[t]
+                opc = {'wrapping_add': '+', 'wrapping_sub': '-', 'wrapping_mul': '*'}[m]
+                e = (f'(wrap{"S" if sg else "U"} {w} ({a} {opc} {b}))', t)
+                continue
+            if m == 'wrapping_abs':
+                sg, w = TYPES[at]
+                e = (f'(wrapS {w} (if {a} < 0 then -{a} else {a}))', at)
+                continue
+            if arg is not None:
+                raise ExtractError(f'kernel {self.name}: method .{m}(arg) not supported')
             if m == 'abs':
                 s, w = TYPES[at]; e = (self.bind(f'absS p {w} {self.site(".abs()")} {a}'), at)
             elif m == 'unsigned_abs':
@@ -359,30 +385,48 @@ def gen_kernels(repo):
     rs = fn_body(dec, 'read_subframes')
     i32 = lambda *names: {n: (n.replace('_', ''), 'i32') for n in names}
     # --- decoder: channel reconstruction (i32 paths)
-    e = grab(rs, r'\*side\s*=\s*(\*left\s*-\s*\*side)\s*;', 'read_subframes: left/side')
+    e = grab(rs, r'\*side\s*=\s*(\*left\s*-\s*\*side|left\.wrapping_sub\(\*side\))\s*;', 'read_subframes: left/side')
     out.append(kernel_def('decLeftSide', e, ['left', 'side'], i32('left', 'side'), 'i32'))
-    e = grab(rs, r'\*side\s*\+=\s*(\*right)\s*;', 'read_subframes: side/right')
-    out.append(kernel_def('decSideRight', '*side + ' + e, ['side', 'right'], i32('side', 'right'), 'i32', doc='*side += *right'))
-    e = grab(rs, r'let\s+sum\s*=\s*(\*mid\s*\*\s*2\s*\+\s*side\.abs\(\)\s*%\s*2)\s*;', 'read_subframes: mid/side sum')
+    m_ = re.search(r'\*side\s*\+=\s*(\*right)\s*;', rs)
+    if m_:
+        out.append(kernel_def('decSideRight', '*side + *right', ['side', 'right'], i32('side', 'right'), 'i32', doc='*side += *right'))
+    else:
+        e = grab(rs, r'\*side\s*=\s*(side\.wrapping_add\(\*right\))\s*;', 'read_subframes: side/right')
+        out.append(kernel_def('decSideRight', e, ['side', 'right'], i32('side', 'right'), 'i32'))
+    e = grab(rs, r'let\s+sum\s*=\s*(\*mid\s*\*\s*2\s*\+\s*side\.abs\(\)\s*%\s*2|mid\.wrapping_mul\(2\)\.wrapping_add\(side\.wrapping_abs\(\)\s*%\s*2\))\s*;', 'read_subframes: mid/side sum')
     out.append(kernel_def('decMidSum', e, ['mid', 'side'], i32('mid', 'side'), 'i32'))
-    e = grab(rs, r'\*mid\s*=\s*(\(sum\s*\+\s*\*side\)\s*>>\s*1)\s*;', 'read_subframes: mid/side left')
+    e = grab(rs, r'\*mid\s*=\s*(\(sum\s*\+\s*\*side\)\s*>>\s*1|sum\.wrapping_add\(\*side\)\s*>>\s*1)\s*;', 'read_subframes: mid/side left')
     out.append(kernel_def('decMidLeft', e, ['sum', 'side'], i32('sum', 'side'), 'i32'))
-    e = grab(rs, r'\*side\s*=\s*(\(sum\s*-\s*\*side\)\s*>>\s*1)\s*;', 'read_subframes: mid/side right')
+    e = grab(rs, r'\*side\s*=\s*(\(sum\s*-\s*\*side\)\s*>>\s*1|sum\.wrapping_sub\(\*side\)\s*>>\s*1)\s*;', 'read_subframes: mid/side right')
     out.append(kernel_def('decMidRight', e, ['sum', 'side'], i32('sum', 'side'), 'i32'))
     # --- decoder: the 33-bit side paths (i64 arithmetic, results narrowed with `as i32`)
     w = {'left': ('left', 'i32'), 'right': ('right', 'i32'), 'mid': ('mid', 'i32'), 'side_i64': ('side', 'i64'), 'side_64': ('side', 'i64'), 'sum': ('sum', 'i64')}
-    e = grab(rs, r'\*side\s*=\s*(\(\*left as i64\s*-\s*side_i64\) as i32)\s*;', 'read_subframes: wide left/side')
+    e = grab(rs, r'\*side\s*=\s*(\(\*left as i64\s*-\s*side_i64\) as i32|\(\*left as i64\)\.wrapping_sub\(side_i64\) as i32)\s*;', 'read_subframes: wide left/side')
     out.append(kernel_def('decLeftSideWide', e, ['left', 'side'], w, 'i32'))
-    e = grab(rs, r'\*side\s*=\s*(\(side_64\s*\+\s*\*right as i64\) as i32)\s*;', 'read_subframes: wide side/right')
+    e = grab(rs, r'\*side\s*=\s*(\(side_64\s*\+\s*\*right as i64\) as i32|side_64\.wrapping_add\(\*right as i64\) as i32)\s*;', 'read_subframes: wide side/right')
     out.append(kernel_def('decSideRightWide', e, ['side', 'right'], w, 'i32'))
-    e = grab(rs, r'let\s+sum\s*=\s*(\*mid as i64\s*\*\s*2\s*\+\s*\(side_i64\.abs\(\)\s*%\s*2\))\s*;', 'read_subframes: wide mid/side sum')
+    e = grab(rs, r'let\s+sum\s*=\s*(\*mid as i64\s*\*\s*2\s*\+\s*\(side_i64\.abs\(\)\s*%\s*2\)|\(\*mid as i64\s*\*\s*2\)\.wrapping_add\(side_i64\.wrapping_abs\(\)\s*%\s*2\))\s*;', 'read_subframes: wide mid/side sum')
     out.append(kernel_def('decMidSumWide', e, ['mid', 'side'], w, 'i64'))
-    e = grab(rs, r'\*mid\s*=\s*(\(\(sum\s*\+\s*side_i64\)\s*>>\s*1\) as i32)\s*;', 'read_subframes: wide mid')
+    e = grab(rs, r'\*mid\s*=\s*(\(\(sum\s*\+\s*side_i64\)\s*>>\s*1\) as i32|\(sum\.wrapping_add\(side_i64\)\s*>>\s*1\) as i32)\s*;', 'read_subframes: wide mid')
     out.append(kernel_def('decMidLeftWide', e, ['sum', 'side'], w, 'i32'))
-    e = grab(rs, r'\*side\s*=\s*(\(\(sum\s*-\s*side_i64\)\s*>>\s*1\) as i32)\s*;', 'read_subframes: wide side')
+    e = grab(rs, r'\*side\s*=\s*(\(\(sum\s*-\s*side_i64\)\s*>>\s*1\) as i32|\(sum\.wrapping_sub\(side_i64\)\s*>>\s*1\) as i32)\s*;', 'read_subframes: wide side')
     out.append(kernel_def('decMidRightWide', e, ['sum', 'side'], w, 'i32'))
     # --- decoder: Rice un-folding
     rb = fn_body(dec, 'read_block')
+    rbn = ' '.join(rb.split())
+    if 'residuals.rchunks_mut(block_size / partition_count).rev()' in rbn:
+        zero = '.panic "read_block: rchunks_mut chunk size must be non-zero"'
+    elif ('let partition_len = match block_size / partition_count { 0 => return Err(Error::InvalidPartitionOrder), len => len, };' in rbn
+          and 'residuals.rchunks_mut(partition_len).rev()' in rbn):
+        zero = '.err "InvalidPartitionOrder"'
+    else:
+        raise ExtractError('read_block: partition slicing `residuals.rchunks_mut(block_size / partition_count)` changed shape')
+    if 'if partitions.len() != partition_count { return Err(Error::InvalidPartitionOrder); }' not in rbn:
+        raise ExtractError('read_block: the test `partitions.len() != partition_count` is gone')
+    out.append(f'/-- what `read_block` does when `block_size / partition_count` is 0 -/\ndef decZeroPartitionLen : Fail := {zero}\n')
+    g_ = re.search(r'if\s+msb\s*>\s*\(u32::MAX\s*>>\s*u32::from\(rice\)\)\s*\{\s*return\s+Err\(Error::ResidualOverflow', rb)
+    out.append('/-- guard in front of the Rice join: `msb > (u32::MAX >> rice)` ⇒ `ResidualOverflow`' + ('' if g_ else ' (ABSENT in the source: never rejects)') + ' -/\n'
+               f'def decRiceOverflow (msb rice : Nat) : Bool := {"decide (msb > 4294967295 / 2 ^ rice)" if g_ else "false"}\n')
     e = grab(rb, r'let\s+unsigned\s*=\s*(\(msb\s*<<\s*u32::from\(rice\)\)\s*\|\s*lsb)\s*;', 'read_block: unsigned')
     out.append(kernel_def('decRiceJoin', e, ['msb', 'rice', 'lsb'], {'msb': ('msb', 'u32'), 'lsb': ('lsb', 'u32'), 'rice': ('rice', 'u32')}, 'u32'))
     e_neg = grab(rb, r'if\s*\(unsigned\s*&\s*1\)\s*==\s*1\s*\{\s*(-\(I::from_u32\(unsigned\s*>>\s*1\)\)\s*-\s*I::ONE)\s*\}', 'read_block: odd branch')
@@ -392,15 +436,19 @@ def gen_kernels(repo):
         out.append(kernel_def('decRiceEven' + gname, e_pos, ['unsigned'], {'unsigned': ('unsigned', 'u32')}, g, generic=g))
     # --- decoder: prediction step (shape-checked, emitted structurally)
     pb = ' '.join(fn_body(dec, 'predict').split())
-    inner = ('I::from_i64( predicted .iter() .rev() .zip(coefficients) .map(|(x, y)| (*x).into() * y) '
-             '.sum::<i64>() >> qlp_shift, )').replace(' ', '')
     pbn = pb.replace(' ', '')
-    if ('residuals[0]+=' + inner + ';') in pbn:
-        wrapping = False
-    elif ('residuals[0]=residuals[0].wrapping_add(' + inner + ');') in pbn:
-        wrapping = True
-    else:
+    sum_trap = 'predicted.iter().rev().zip(coefficients).map(|(x,y)|(*x).into()*y).sum::<i64>()>>qlp_shift,'
+    sum_wrap = 'predicted.iter().rev().zip(coefficients).fold(0i64,|sum,(x,y)|{sum.wrapping_add(Into::<i64>::into(*x).wrapping_mul(*y))})>>qlp_shift,'
+    wrapping = None; dotwrap = None
+    for sw, st in ((False, sum_trap), (True, sum_wrap)):
+        if ('residuals[0]+=I::from_i64(' + st + ');') in pbn: wrapping, dotwrap = False, sw
+        if ('residuals[0]=residuals[0].wrapping_add(I::from_i64(' + st + '));') in pbn: wrapping, dotwrap = True, sw
+    if wrapping is None:
         raise ExtractError('predict: body no longer has the shape `residuals[0] (+= | = ….wrapping_add)(I::from_i64(Σ x·c >> qlp_shift))`')
+    out.append('/-- the i64 accumulation of `predict`: `exact` = Σ xᵢ·cᵢ over the integers; '
+               + ('wrapping_mul/wrapping_add keep its low 64 bits' if dotwrap else '`.sum::<i64>()` of plain products (traps on i64 overflow with overflow checks)') + ' -/\n'
+               'def decDot (p : Profile) (exact : Int) : Res Int := '
+               + ('pure (wrapS 64 exact)' if dotwrap else 'resS p 64 "predict: Σ x·c in i64" exact') + '\n')
     if 'for split in coefficients.len()..channel.len()' not in pb or 'channel.split_at_mut(split)' not in pb:
         raise ExtractError('predict: loop shape changed')
     if wrapping:
@@ -488,6 +536,25 @@ def gen_kernels(repo):
     out.append(f'/-- both candidates succeeded: `[fixed_output, lpc_output].into_iter().{m.group(1)}(|c| c.written())` -/\n'
                f'def encPickCandidate (fixedBits lpcBits : Nat) : Nat := '
                + ('if lpcBits < fixedBits then lpcBits else fixedBits' if m.group(1) == 'min_by_key' else 'if fixedBits ≤ lpcBits then lpcBits else fixedBits') + '\n')
+    # --- end-of-stream decision of read_frame when the total is unknown
+    rf = ' '.join(fn_body(dec, 'read_frame').split())
+    if ('Err(Error::Io(err)) if err.kind() == std::io::ErrorKind::UnexpectedEof && header_reader.count == 0 => { return Ok(None); }' in rf
+            and 'let mut header_reader = crate::Counter::new(crc16_reader.by_ref());' in rf):
+        strict = 'true'
+    elif 'Err(Error::Io(err)) if err.kind() == std::io::ErrorKind::UnexpectedEof => { return Ok(None); }' in rf:
+        strict = 'false'
+    else:
+        raise ExtractError('read_frame: the unknown-total end-of-stream arm changed shape')
+    out.append('/-- with an unknown total, is an EOF INSIDE a frame header an error (true) or a clean end of stream (false)? '
+               'an EOF before the first header byte always ends the stream -/\n'
+               f'def decHeaderEofStrict : Bool := {strict}\n')
+    if 'Some(0) => return Ok(None),' not in rf or '(u64::from(block_size) == remaining || block_size > 14)' not in rf:
+        raise ExtractError('read_frame: known-total accounting / short-block rule changed shape')
+    over = 'if u64::from(block_size) > remaining { return Err(Error::TooManySamples); }' in rf
+    if '.map(|total| total.get() - self.current_sample)' not in rf:
+        raise ExtractError('read_frame: `remaining = total - current_sample` changed shape')
+    out.append('/-- is a frame longer than the samples remaining (by STREAMINFO) rejected with TooManySamples? -/\n'
+               f'def decOvershootIsError : Bool := {"true" if over else "false"}\n')
     out.append('end Flac.Gen')
     return '\n'.join(out) + '\n'
 
